@@ -1,0 +1,6 @@
+//go:build !verif
+
+package syntax
+
+// verifGate is constant false in normal builds (see verif_gate_on.go).
+func verifGate(uint32) bool { return false }
